@@ -490,10 +490,13 @@ def resolver_sweep() -> Tuple[Dict[str, Any], List[Dict[str, Any]]]:
                     call = {"@m": dict(kv)}
                     macro = {"name": "@m", "args": list(formals), "pattern": copy.deepcopy(body)}
                     cases.append((macro, call))
+                # the same call with its arguments written as a YAML list of one-entry mappings under the macro name
+                cases.append(({"name": "@m", "args": list(formals), "pattern": copy.deepcopy(body)},
+                              {"@m": [{k_: v_} for k_, v_ in orders[0]]}))
     res = replay.run_real({"kind": "resolver", "cases": cases}, timeout=1800)["results"]
     viol = []
     for (macro, call), r in zip(cases, res):
-        mapping = dict(call["@m"])
+        mapping = dict(call["@m"]) if isinstance(call["@m"], dict) else {k_: v_ for d_ in call["@m"] for k_, v_ in d_.items()}
         want = INL._subst_args(copy.deepcopy(macro["pattern"]), mapping)
         if r.get("pattern") != want:
             viol.append({"input": {"macro": macro, "call": call}, "real": r, "expected": want,
@@ -746,6 +749,13 @@ def limit_lines() -> List[Tuple[str, str]]:
         out.append((f"seg-{seg_}-disp-idx", f"  401185:\t65 48 89 54 c8 10    \tmov    %rdx,{seg_}:0x10(%rax,%rcx,8)"))
         out.append((f"seg-{seg_}-base", f"  40118b:\t26 8b 07             \tmov    {seg_}:(%rdi),%eax"))
         out.append((f"seg-{seg_}-abs", f"  40118e:\t64 48 8b 04 25 28 00 \tmov    {seg_}:0x28,%rax"))
+    # 16-bit addressing: base and index without a scale (objdump -M att of addr16 / i8086 code)
+    for t16_, b16_ in (("(%bx,%si)", "67 8b 00"), ("0x10(%bp,%di)", "67 8b 43 10"), ("-0x2(%bx,%di)", "67 8b 41 fe"), ("0x10(%bp,%si)", "67 8b 42 10")):
+        out.append((f"addr16-{t16_}", f"   1:\t{b16_.ljust(20)} \tmov    {t16_},%eax"))
+        out.append((f"addr16-{t16_}-dst", f"   5:\t{b16_.ljust(20)} \tmov    %ax,{t16_}"))
+    # x87 mnemonics that objdump prints with a parenthesised remark
+    out.append(("fndisi", "  4011a0:\tdb e1                \tfndisi(8087 only)"))
+    out.append(("frstpm", "  4011a2:\tdb e5                \tfrstpm(287 only)"))
     # index-only references with every scale
     for sc_ in "1248":
         out.append((f"index-only-{sc_}", f"  401195:\t48 8d 14 85 00 00 00 \tlea    0x0(,%rax,{sc_}),%rdx"))
@@ -753,10 +763,31 @@ def limit_lines() -> List[Tuple[str, str]]:
     return out
 
 
+def other_lines() -> List[Tuple[str, str]]:
+    """lines that are NOT instructions, with characters that mean something in a regular expression: they contribute nothing to the
+    stream and never make the parser fail (C08, C16)"""
+    return [
+        ("title-paren", "build(1/main.o:     file format elf64-x86-64"),
+        ("title-bracket", "lib[x.so:     file format elf64-x86-64"),
+        ("title-star", "*out+.o:     file format elf64-x86-64"),
+        ("section-paren", "Disassembly of section .text.f(:"),
+        ("section-bracket", "Disassembly of section .text[0:"),
+        ("label-paren", "0000000000401000 <operator()(int)>:"),
+        ("label-template", "0000000000401000 <std::vector<int, std::allocator<int> >::push_back(int const&)>:"),
+        ("elision", "\t..."),
+        ("blank", ""),
+        ("junk-regex", "(?P<x"),
+        ("junk-backslash", "\\"),
+    ]
+
+
 def decorate(rnd: random.Random, lines: List[str]) -> List[str]:
     """presentation edits of C16: labels, blank lines, headers, indentation, byte column, annotations stay semantically inert"""
     out = ["", "prog:     file format elf64-x86-64", "", "", "Disassembly of section .text:", ""]
+    others = [l_ for _t, l_ in other_lines()]
     for li, ln in enumerate(lines):
+        if li % 40 == 7:
+            out.append(others[(li // 40) % len(others)])
         if li == len(lines) // 2:
             # a section header in the middle of the code (the first header of a listing may also be missing: the plain
             # variant of the same lines has none at all)
@@ -988,6 +1019,71 @@ def cli_sweep(n: int, seed: int) -> Tuple[Dict[str, Any], List[Dict[str, Any]]]:
                           "macro files given in non-sorted order, plus 4 malformed command lines and 5 failing operations"}}, viol
 
 
+def cli_smoke() -> Tuple[Dict[str, Any], List[Dict[str, Any]]]:
+    """a handful of real `python -m jasm.main` runs in ONE scratch directory (the second run finds the files the first one left),
+    compared with the API: what every change is run against (quick tier of C20)"""
+    import tempfile
+    import yaml
+    L = listing_of([("401000", "push", ["%rbp"]), ("401001", "mov", ["%rsp", "%rbp"]), ("401004", "pop", ["%rbp"]), ("401005", "push", ["%rbp"]),
+                    ("401006", "mov", ["%rsp", "%rbp"]), ("401009", "ret", [""])])
+    rule = {"pattern": ["push", {"mov": ["%rsp"]}]}
+    viol = []
+    runs = 0
+    py = "/venv/bin/python"
+    env = dict(os.environ)
+    env["PYTHONPATH"] = os.path.join(replay.repo(), "src")
+    with tempfile.TemporaryDirectory() as t:
+        lp, rp = os.path.join(t, "in.s"), os.path.join(t, "r.yaml")
+        open(lp, "w").write(L)
+        yaml.safe_dump(rule, open(rp, "w"), sort_keys=False)
+        combos = [(True, True), (True, True), (False, False), (True, False)]
+        jobs = [{"kind": "mop", "rule": rule, "listing": L, "modes": [["bool", "all_finds" if a_ else "first_find", o_],
+                                                                    ["matched_addrs_list", "all_finds" if a_ else "first_find", o_]]} for a_, o_ in combos]
+        apis = replay.run_real(jobs)
+        for (allm, only), api in zip(combos, apis):
+            argv = [py, "-m", "jasm.main", "-p", rp, "-s", lp] + (["--all-matches"] if allm else []) + (["--return_only_address"] if only else [])
+            p = subprocess.run(argv, capture_output=True, text=True, env=env, cwd=t)
+            runs += 1
+            out = p.stderr + p.stdout
+            addrs = [ln.split("Matched address: ", 1)[1] for ln in out.split("\n") if "Matched address: " in ln]
+            found = "RESULT: Pattern found" in out
+            rb, rl = api["results"][0], api["results"][1]
+            if "error" in rb or "error" in rl:
+                continue
+            if p.returncode != 0 or found != rb["result"] or addrs != rl["result"]:
+                viol.append({"input": {"argv": argv[3:], "rule": rule, "macros_files": [], "listing": L},
+                             "real": {"exit": p.returncode, "cli_found": found, "cli_addresses": addrs, "api_bool": rb["result"], "api_list": rl["result"],
+                                      "output_tail": out[-300:]},
+                             "disagreement": "the jasm command does not report the verdict / matched addresses the API computes"})
+        # binary mode through the command (when the tree ships a binary and objdump is there)
+        binp = os.path.join(replay.repo(), "tests", "binary", "smc.bin")
+        import shutil
+        if os.path.exists(binp) and shutil.which("objdump"):
+            brule = {"pattern": ["ret"]}
+            brp = os.path.join(t, "rb.yaml")
+            yaml.safe_dump(brule, open(brp, "w"), sort_keys=False)
+            api = replay.run_real({"kind": "mop", "rule": brule, "binary_path": binp, "modes": [["bool", "first_find", True], ["matched_addrs_list", "first_find", True]]})
+            p = subprocess.run([py, "-m", "jasm.main", "-p", brp, "-b", binp, "--return_only_address"], capture_output=True, text=True, env=env, cwd=t)
+            runs += 1
+            out = p.stderr + p.stdout
+            addrs = [ln.split("Matched address: ", 1)[1] for ln in out.split("\n") if "Matched address: " in ln]
+            rb, rl = api["results"][0], api["results"][1]
+            if "error" not in rb and (p.returncode != 0 or ("RESULT: Pattern found" in out) != rb["result"] or addrs != rl["result"]):
+                viol.append({"input": {"argv": ["-p", "rule", "-b", binp, "--return_only_address"], "rule": brule, "binary": binp},
+                             "real": {"exit": p.returncode, "cli_addresses": addrs, "api_bool": rb["result"], "api_list": rl["result"], "output_tail": out[-300:]},
+                             "disagreement": "the jasm command in binary mode does not report the verdict / matched addresses the API computes"})
+        # required arguments
+        for argv, what in (([py, "-m", "jasm.main", "-s", lp], "without -p"), ([py, "-m", "jasm.main", "-p", rp], "without -s/-b"),
+                           ([py, "-m", "jasm.main", "-p", rp, "-s", lp, "-b", lp], "with both -s and -b"),
+                           ([py, "-m", "jasm.main", "-p", rp, "-s", os.path.join(t, "missing.s")], "with a missing listing")):
+            p = subprocess.run(argv, capture_output=True, text=True, env=env, cwd=t)
+            runs += 1
+            if p.returncode == 0:
+                viol.append({"input": {"argv": argv[3:]}, "real": {"exit": 0}, "disagreement": f"the command {what} exits with status 0"})
+    return {"cli_smoke": {"runs": runs, "bound": "one rule x 4 option combinations (one repeated) in one scratch directory, one binary-mode run, "
+                          "4 failing command lines, through `python -m jasm.main`"}}, viol
+
+
 # --------------------------------------------------------------------------- binary route = objdump text route (C15)
 def binary_sweep(n: int, seed: int) -> Tuple[Dict[str, Any], List[Dict[str, Any]]]:
     import tempfile
@@ -1115,7 +1211,7 @@ def instrumentation_identity() -> Tuple[Dict[str, Any], List[Dict[str, Any]]]:
 QUICK = {"den": 60, "modes": 25, "macros": 60, "history": 30, "parser": 300, "validaddr": 40, "cli": 1, "binary": 1}
 THOROUGH = {"den": 2500, "modes": 400, "macros": 1500, "history": 182, "parser": 20000, "validaddr": 400, "cli": 1, "binary": 1}
 DEN_PROPS = {"C01", "C02", "C03", "C04", "C05", "C06", "C07", "C11"}
-QUICK_SWEEP_PROPS = {"C13": ["macros", "resolver"], "C19": ["undefined"], "C14": ["history"]}
+QUICK_SWEEP_PROPS = {"C13": ["macros", "resolver"], "C19": ["undefined"], "C14": ["history"], "C20": ["cli_smoke"]}
 
 
 def run(prop: str, tier: str, seed: int, force: bool = False) -> Tuple[Dict[str, Any], List[Dict[str, Any]]]:
@@ -1177,6 +1273,8 @@ def run(prop: str, tier: str, seed: int, force: bool = False) -> Tuple[Dict[str,
             c, v = validaddr_sweep(B["validaddr"], seed)
         elif s == "cli":
             c, v = cli_sweep(B["cli"], seed)
+        elif s == "cli_smoke":
+            c, v = cli_smoke()
         elif s == "binary":
             c, v = binary_sweep(B["binary"], seed)
         elif s == "objdump":
@@ -1202,7 +1300,7 @@ def run(prop: str, tier: str, seed: int, force: bool = False) -> Tuple[Dict[str,
 
 def rerun(prop: str, doc: Dict[str, Any], path: str) -> int:
     """replay of a bounded-sweep violation file"""
-    inp = doc.get("input", {})
+    inp = doc.get("input") or doc.get("confirmed_input") or {}
     if "history" in inp:
         ops = inp["history"]
         r = replay.run_real({"kind": "history", "ops": ops})
@@ -1227,7 +1325,7 @@ def rerun(prop: str, doc: Dict[str, Any], path: str) -> int:
         r = replay.run_real({"kind": "parse", "lines": [inp["line"]]})
         exp = OM.decode_line(inp["line"])
         got = r["lines"][0]
-        bad = "error" in got or (exp is not None and got.get("inst") != [exp[0], exp[1], exp[2]])
+        bad = "error" in got or (exp is not None and got.get("inst") != [exp[0], exp[1], exp[2]]) or (exp is None and "inst" in got)
         print(json.dumps({"real": got, "expected": exp}, indent=1))
     elif "rule" in inp and "instructions" in inp:
         r = replay.run_real({"rule": inp["rule"], "insts": inp["instructions"], "mode": "all"})
